@@ -18,17 +18,20 @@ void @p@readhb(int_t *, int_t *, int_t *, @T@ **, int_t **, int_t **);
 #endif
 void h_rdtop(void) {
   READER(&in_nrow, &in_ncol, &in_nonz, &in_nzval, &in_rowind, &in_colptr);
+#if SYMUNIT
+  if ((in_hdr[2][1] == 'S' || in_hdr[2][1] == 's') && 0 <= g_i && g_i < in_l3[1] && 0 <= g_t && g_t < in_l3[2] && in_colptr[g_i] <= g_t && g_t < in_colptr[g_i + 1] && in_rowind[g_t] != g_i)
+    __CPROVER_assert(0, "canary: symmetric file with a stored off-diagonal entry");
+#else
+  /* (each failing canary costs a multi-megabyte trace in the json output: only the cases that select different code paths) */
   __CPROVER_assert(0, "canary: reader returns");
-#if !RB
+#if !RB && SHORTHDR != 1
   if (in_l2[4] > 0) __CPROVER_assert(0, "canary: right-hand-side header line present");
+#endif
+#if !RB
   if (in_l2[4] == 0) __CPROVER_assert(0, "canary: no right-hand-side header line");
 #endif
   if (in_l2[3] == 0) __CPROVER_assert(0, "canary: pattern file (no value lines)");
-  if (in_l2[3] > 0 && in_l3[2] > 0 && g_t == in_l3[2] - 1) __CPROVER_assert(0, "canary: last value item");
   if (in_l3[2] == 0) __CPROVER_assert(0, "canary: no entries");
-  if (in_l3[1] == 0) __CPROVER_assert(0, "canary: no columns");
-  if (in_l3[0] != in_l3[1]) __CPROVER_assert(0, "canary: rectangular");
   if (in_nl[1] > 70 && in_nl[3] > 72) __CPROVER_assert(0, "canary: header lines longer than their formats");
-  if (in_l3[1] == 500000000 && in_pn[0] == 1) __CPROVER_assert(0, "canary: largest column count");
-  if (in_hdr[2][1] == 'S') __CPROVER_assert(0, "canary: symmetric type letter");
+#endif
 }
